@@ -279,7 +279,7 @@ func (p *Properties) UnpackWillProperties(bufr *bytes.Buffer) error {
 	length, err := EncodeRemainLength(bufr)
 	// 整个buffer最多只能读到length这么长
 	if err != nil {
-		return err
+		return codes.ErrMalformed
 	}
 	if length == 0 {
 		return nil
@@ -334,10 +334,14 @@ func (p *Properties) UnpackWillProperties(bufr *bytes.Buffer) error {
 // of bytes used to store the Prop data and any error in decoding them
 func (p *Properties) Unpack(bufr *bytes.Buffer, packetType byte) error {
 	var err error
+	if bufr.Len() == 0 {
+		// the packet ends before the Property Length: the value of 0 is used
+		return nil
+	}
 	length, err := EncodeRemainLength(bufr)
 	// 整个buffer最多只能读到length这么长
 	if err != nil {
-		return err
+		return codes.ErrMalformed
 	}
 	if length == 0 {
 		return nil
